@@ -79,7 +79,15 @@ Stale == { [ops |-> <<Op("exec", v, sa, "ok", "none")>> \o post, gate |-> "stale
             v \in {"run", "runslow"}, sa \in BOOLEAN,
             post \in { <<Ping, Ping, Ping, Ping>>, <<Run, Ping, Ping>>, <<Op("reset", "", FALSE, "none", "none"), Ping, RunA>>,
                        <<Op("open", "ok", FALSE, "none", "none"), Ping, Ping>> } }
-All == Singles \cup Pairs \cup Races \cup Rand \cup Loss \cup Stale \cup Carry \cup FailPairs
+\* (i) a Ping that runs into its own bound because the container is stalled (SIGSTOP) and answers late: the
+\* late pong must never be taken for the answer of a later call
+StallPing == Op("ping", "stall", FALSE, "none", "none")
+Stall == { [ops |-> <<StallPing>> \o post, gate |-> "", delays |-> ""] :
+            post \in { <<Op("delete", "bad", FALSE, "none", "none"), Ping, Op("open", "bad", FALSE, "none", "none")>>,
+                       <<Ping, Op("delete", "bad", FALSE, "none", "none"), Run>>,
+                       <<Op("exec", "noent", FALSE, "ok", "none"), Ping, Ping>>,
+                       <<Run, Op("symlink", "bad", FALSE, "none", "none"), Ping>> } }
+All == Singles \cup Pairs \cup Races \cup Rand \cup Loss \cup Stale \cup Carry \cup FailPairs \cup Stall
 ASSUME ndJsonSerialize("histories.ndjson", SetToSeq(All))
 ASSUME PrintT(<<"histories", Cardinality(Singles), Cardinality(Pairs), Cardinality(Races), Cardinality(Rand), Cardinality(Loss)>>)
 VARIABLE x
